@@ -2,6 +2,7 @@ package op
 
 import (
 	"sort"
+	"strings"
 
 	"github.com/berquerant/crd/errorx"
 	"github.com/berquerant/crd/note"
@@ -56,10 +57,21 @@ func (m Meta) MarshalYAML() (any, error) {
 	return n, nil
 }
 
+// metaScalar is the node of a metadata string. It has to read back as the
+// same string: a block scalar, which yaml.v3 chooses for a text with line
+// breaks, cannot carry a leading line break or tab, and a plain "<<" reads
+// back as a merge key - those are written double-quoted.
 func metaScalar(s string) (*yaml.Node, error) {
+	quoted := &yaml.Node{Kind: yaml.ScalarNode, Tag: "!!str", Value: s, Style: yaml.DoubleQuotedStyle}
+	if strings.Contains(s, "\n") {
+		return quoted, nil
+	}
 	var n yaml.Node
 	if err := n.Encode(s); err != nil {
 		return nil, err
+	}
+	if n.Tag != "!!str" {
+		return quoted, nil
 	}
 	return &n, nil
 }
